@@ -211,6 +211,11 @@ func genC12(tier string, rng *Rng) {
 			add(fmt.Sprintf("rnd%d", k), []Item{{Kind: "raw", Data: Lit(b)}}, rng.Pick([]int{0, 200, 1200}), rng.Bool(), entry)
 		}
 	}
+	// several connections, the panel changing its behaviour from one to the next (matrix.go)
+	for _, sc := range matrixScenarios(tier, false) {
+		scs = append(scs, sc)
+		hist["matrix"]++
+	}
 	meta(map[string]interface{}{"c12_reply_classes": hist, "delays_ms": delays, "entries": []string{"client", "detector"}, "scenarios": len(scs)})
 	runBatch(scs, 64)
 	meta(map[string]interface{}{"reruns": rerunCount, "reruns_rescued": rerunRescued})
